@@ -213,33 +213,41 @@ from pyvc.spec import Lemma  # noqa: E402
 
 
 class MainLoopStructure(Lemma):
-    """main(): `for _ in range(model.timer.Nsteps): model.update()` followed by `model.finish()`.
-    By the for-range rule the body runs exactly Nsteps times; with Model.update's contract the trace is
-    (protocol)^Nsteps followed by the closes. Decided structurally on the extracted AST."""
+    """main(): `while model.timer.step < model.timer.Nsteps - 1: model.update()` followed by `model.finish()`.
+    Model.update advances the clock by exactly one step (proved: Model.update), so the body runs exactly
+    Nsteps - 1 - step0 times: Nsteps updates from a cold start (step0 = -1), Nsteps - 1 after the warm-start
+    catch-up (step0 = 0); the steps visited are step0+1 .. Nsteps-1. Decided structurally on the extracted AST
+    (a `for _ in range(model.timer.Nsteps)` loop is accepted as the cold-start-only equivalent)."""
 
-    name = "main loop: exactly Nsteps model updates, then finish"
-    properties = ("C07", "C19")
+    name = "main loop: one model update per step up to step Nsteps-1, then finish"
+    properties = ("C07", "C19", "C08")
 
     def formula(self):
         mod, _c, node = Repo().lookup("ladim.main.main")
-        loops = [st for st in node.body if isinstance(st, ast.For)]
-        ok_loop = False
-        ok_after = False
-        ok_before = False
+        loops = [st for st in node.body if isinstance(st, (ast.For, ast.While)) and "model.update" in ast.unparse(st)]
+        ok_loop = ok_after = ok_before = False
+        warm_ok = False
         if len(loops) == 1:
             lp = loops[0]
-            it = ast.unparse(lp.iter)
             body = [ast.unparse(b) for b in lp.body if not (isinstance(b, ast.Expr) and isinstance(b.value, ast.Constant))]
-            ok_loop = it == "range(model.timer.Nsteps)" and body == ["model.update()"] and not lp.orelse
+            if isinstance(lp, ast.While):
+                cond = ast.unparse(lp.test).replace(" ", "")
+                ok_loop = cond in ("model.timer.step<model.timer.Nsteps-1", "model.timer.step+1<model.timer.Nsteps") and body == ["model.update()"] and not lp.orelse
+                warm_ok = ok_loop
+            else:
+                ok_loop = ast.unparse(lp.iter) == "range(model.timer.Nsteps)" and body == ["model.update()"] and not lp.orelse
             idx = node.body.index(lp)
             after = [ast.unparse(b) for b in node.body[idx + 1 :]]
             ok_after = sum(1 for x in after if x == "model.finish()") == 1 and not any("model.update" in x for x in after)
             before = [ast.unparse(b) for b in node.body[:idx]]
             ok_before = sum(1 for x in before if x == "model = Model(config)") == 1 and not any("model.update" in x or "model.finish" in x for x in before)
+        n, s0, k = z3.Ints("Nsteps step0 k")
         return [
-            (self.name + ": the time loop is `for _ in range(model.timer.Nsteps): model.update()`", [], z3.BoolVal(ok_loop)),
+            (self.name + ": the time loop runs model.update() while step < Nsteps-1 (or for range(Nsteps))", [], z3.BoolVal(ok_loop)),
             (self.name + ": finish() is called exactly once, after the loop", [], z3.BoolVal(ok_after)),
             (self.name + ": the model is constructed exactly once, before the loop", [], z3.BoolVal(ok_before)),
+            ("C08: after a warm start (step0 = 0) the loop ends at step Nsteps-1, never reaching the stop time", [], z3.BoolVal(warm_ok)),
+            (self.name + ": with one step per update the k-th update is at step step0 + k and the loop guard holds exactly for k <= Nsteps-1-step0", [s0 >= -1, s0 <= 0, n >= 1, k >= 1], (s0 + (k - 1) < n - 1) == (s0 + k <= n - 1)),
         ]
 
 
@@ -262,3 +270,64 @@ class RecordSchedule(Lemma):
                 z3.And(k == z3.Int("numrec") * (k / z3.Int("numrec")) + k % z3.Int("numrec"), k % z3.Int("numrec") >= 0, k % z3.Int("numrec") < z3.Int("numrec")),
             ),
         ]
+
+
+class ModelInit(Spec):
+    """Model.__init__: modules constructed in the fixed order (output last); on a warm start the state is loaded,
+    the clock is set to step 0 and the step protocol WITHOUT the output event is run once (catch-up)."""
+
+    func = "ladim.model.Model.__init__"
+    properties = ("C08", "C19", "C20")
+    inline = ()
+
+    def __init__(self, warm):
+        self.warm = warm
+        self.name = f"Model.__init__[{'warm' if warm else 'cold'} start]"
+        spec = self
+
+        def init_module(interp, args, kwargs):
+            name, conf, mods = args[0], args[1], args[2]
+            w = spec._world
+            w.trace.append((name, "construct"))
+            cls = dict(state=StateM, time=TimerM, forcing=ForcingM, release=ReleaseM, tracker=TrackerM, ibm=IbmM, output=OutputM).get(name, Module)
+            attrs = dict(step=z3.IntVal(-1), time=z3.Int("t_init")) if name == "time" else {}
+            m = cls(w, name, attrs=attrs)
+            if name == "time":
+                def step2time(interp2, n):
+                    return z3.Int("t_start") + V.to_z3(n) * z3.Int("dt")
+
+                step2time._pyvc_model = True
+                m.attrs["step2time"] = step2time
+            return m
+
+        def warm_start(interp, args, kwargs):
+            spec._world.trace.append(("warm_start", "load"))
+            return None
+
+        self.callees = {"ladim.model.init_module": init_module, "ladim.warm_start.warm_start": warm_start}
+
+    def inputs(self, cx):
+        self._world = World(cx)
+        cx.assume(self._world.aligned == self._world.version)
+        names = ["state", "time", "grid", "forcing", "release", "tracker", "ibm", "output"]
+        config = {n: dict() for n in names}
+        config["warm_start"] = dict(filename="restart.nc", variables=[]) if self.warm else dict()
+        return Args(self=Obj("ladim.model.Model"), config=config)
+
+    def model(self, cx, a):
+        return NotImplemented
+
+    def ensures(self, cx, a, result):
+        w = self._world
+        names = ["state", "time", "grid", "forcing", "release", "tracker", "ibm", "output"]
+        exp = [(n, "construct") for n in names]
+        if self.warm:
+            exp += [("warm_start", "load"), ("release", "update"), ("forcing", "update"), ("tracker", "update"), ("ibm", "update")]
+        timer = a.self.attrs.get("timer")
+        out = [
+            ("C19/C20: modules are constructed once each in the fixed order, the output module last", w.trace[:8] == exp[:8]),
+            ("C08/C19: warm start: load the state, then release, forcing, tracker, ibm once each -- and no output event; cold start: nothing further", w.trace == exp),
+        ]
+        if self.warm:
+            out.append(("C08: after the catch-up the clock is at step 0 and reads the (restart) start time", z3.And(timer.attrs["step"] == 0, timer.attrs["time"] == z3.Int("t_start"))))
+        return out
